@@ -44,6 +44,11 @@ def make_overlay(path, extra=None):
                 rep[os.path.join(REPO, rel, "zz_verif_" + f)] = os.path.join(root, f)
     if extra:
         rep.update(extra)
+    # experiments only (never used by MANIFEST commands): VERIF_EXTRA_OVERLAY=<json {"/repo/x.go": "/tmp/mutant/x.go"}>
+    # lets a candidate patch or a mutant be tried without touching /repo
+    xo = os.environ.get("VERIF_EXTRA_OVERLAY")
+    if xo:
+        rep.update(json.load(open(xo)))
     with open(path, "w") as fh:
         json.dump({"Replace": rep}, fh, indent=1)
     return path
